@@ -139,6 +139,52 @@ def run(ctx, n_random=None, per_field=None):
         b = cc.random_bits(rng, 168)
         others.append(('type-id-%d' % tid, format(tid, '06b') + b[6:]))
     check_batch(ctx, ('other', 0, 168, {}), others, use_oracle=False)
+    shorter_forms(ctx, ctx.budget(6, 60))
+
+
+def shorter_forms(ctx, n_each):
+    """Payloads of the documented SHORTER forms (the trailing variable-length binary / text field cut on a byte / character
+    boundary, so that fill bits are needed), carried by several short sentences handed over in reverse order: every field must
+    have the value the in-order single-sentence carrier gives (whose decode is tied to the layout by C11 and by the
+    model).  Pad bits of the closing fragment must not become payload."""
+    import pyais
+    rng, rep = ctx.rng, ctx.rep
+    for variant in cc.VARIANTS:
+        base = cc.make_payload(rng, variant)
+        spec = cc.parse_spec(ctx.model.ask(f'spec {base}')) if ctx.model else None
+        if spec is None:
+            continue
+        kinds = dict(spec['fields'])
+        name, off, w = spec['layout'][-1]
+        k = kinds[name][0]
+        if k not in ('y', 's') or w < 48:
+            continue
+        unit = 8 if k == 'y' else 6
+        for _ in range(n_each):
+            length = off + unit * rng.randrange(1, w // unit)
+            if length % 6 == 0:
+                length -= unit if (length - unit) % 6 and length - unit > off else 0
+            bits = cc.make_payload(rng, variant, length)
+            rep.case(('shorter-form', bits), kind='shorter-form:' + ('fill' if length % 6 else 'nofill'))
+            a = cc.impl_decode(bits)
+            try:
+                msg = pyais.decode(*reversed(cc.ais.bits_to_sentences(bits, maxlen=17)))
+                d = msg.asdict()
+                b = ('Ok', type(msg).__name__, [(f.name, d[f.name]) for f in type(msg).fields()])
+            except Exception as e:   # noqa: BLE001
+                b = ('Raise', type(e).__name__)
+            if a[0] != 'Ok':
+                continue
+            if b[0] != 'Ok' or b[1] != a[1]:
+                rep.violation({'entry': 'decode(reversed parts)', 'class': a[1], 'component': 'outcome', 'kind': 'wrong-class'},
+                              f'{a[1]} payload of {length} bits: parts in reverse order give {b[:2]}', {'bits': bits, 'reversed': True})
+                continue
+            for (n1, v1), (n2, v2) in zip(a[2], b[2]):
+                if repr(cc.ais.canon_value(v1)) != repr(cc.ais.canon_value(v2)):
+                    rep.violation({'entry': 'decode(reversed parts)', 'class': a[1], 'component': n1, 'kind': 'wrong-value'},
+                                  f'{a[1]}.{n1} of a {length}-bit payload is {cc.show(v1)} for the plain carrier but {cc.show(v2)} '
+                                  f'when its sentences are passed in reverse order', {'bits': bits, 'reversed': True})
+                    break
 
 
 def hunt(ctx):
@@ -149,6 +195,18 @@ def replay(ctx, data):
     import vlib
     m = ctx.model or vlib.FastModel()
     bits = data['bits']
+    if data.get('reversed'):
+        import pyais
+        a = cc.impl_decode(bits)
+        try:
+            msg = pyais.decode(*reversed(cc.ais.bits_to_sentences(bits, maxlen=17)))
+        except Exception as e:   # noqa: BLE001
+            return f'parts in reverse order raise {type(e).__name__}' if a[0] == 'Ok' else None
+        d = msg.asdict()
+        if a[0] == 'Ok' and [repr(cc.ais.canon_value(v)) for _, v in a[2]] != \
+                [repr(cc.ais.canon_value(d[f.name])) for f in type(msg).fields()]:
+            return 'the sentences passed in reverse order decode to different field values'
+        return None
     spec = cc.parse_spec(m.ask(f'spec {bits}'))
     impl = cc.impl_decode(bits)
     if spec is None:
